@@ -21,7 +21,8 @@ Theorem C10_fail_closed_full_statement_fails :
 Proof. exact fail_closed_not_unconditional. Qed.
 Print Assumptions C10_fail_closed_full_statement_fails.
 
-(* Everything else: for every router, every flow variant, cold or warm provider, every plan (k-th
+(* Everything else: for every router, every set of optional storage interfaces (SStd / SMax / SMin),
+   every flow variant, cold or warm provider, every plan (k-th
    call for any k, or every call of any method) and every VALUE of the failure (plain error,
    deadline, cancellation, *oidc.Error of any code with or without the redirect-disabled mark,
    ErrDuplicateUserCode, ErrInvalidRefreshToken; bare or wrapped) in which no reached failure is one
@@ -37,10 +38,10 @@ Print Assumptions C10_fail_closed_partial.
    the validated URI, a 4xx or a 5xx (or, for introspection only, 200 {active:false}), and carries
    no code / access / refresh / ID token / user claim / active:true. *)
 Theorem C10_fail_closed :
-  forall r f p, wf_flow f = true ->
-  hit p (handler r f) = true ->
-  (forall m kd, In (m, kd) (faults p (handler r f)) -> excused f m kd = false) ->
-  let a := answer p (handler r f) in
+  forall r sv f p, wf_flow f = true ->
+  hit p (handler r sv f) = true ->
+  (forall m kd, In (m, kd) (faults p (handler r sv f)) -> excused f m kd = false) ->
+  let a := answer p (handler r sv f) in
   (r_cls a = K302Err \/ r_cls a = K4xx \/ r_cls a = K5xx
    \/ (r_cls a = KInactive /\ is_introspection f = true))
   /\ (forall c, In c (r_creds a) -> forbidden c = false).
@@ -68,10 +69,10 @@ Print Assumptions C10_fail_closed_any_program.
    error answer without credentials, whatever the value - this is the ErrDuplicateUserCode-on-every-
    attempt case of the device authorization endpoint, for all flows and methods. *)
 Theorem C10_persistent_failure :
-  forall r f m kd, wf_flow f = true ->
-  In m (journal PNone (handler r f)) ->
+  forall r sv f m kd, wf_flow f = true ->
+  In m (journal PNone (handler r sv f)) ->
   open_pair f m = false -> documented_answer m kd = false ->
-  closed_answer f (answer (PMethod m kd) (handler r f)) = true.
+  closed_answer f (answer (PMethod m kd) (handler r sv f)) = true.
 Proof. exact persistent_failure. Qed.
 Print Assumptions C10_persistent_failure.
 
@@ -79,17 +80,17 @@ Print Assumptions C10_persistent_failure.
    is (or wraps) context.DeadlineExceeded and access_denied otherwise (4xx, no credential), on both
    routers, every variant. *)
 Theorem C10_device_mapping :
-  forall r c off oid p kd rest,
-  faults p (handler r (FDeviceToken c off oid)) = (MGetDeviceAuthorizatonState, kd) :: rest ->
-  let a := answer p (handler r (FDeviceToken c off oid)) in
+  forall r sv c off oid p kd rest,
+  faults p (handler r sv (FDeviceToken c off oid)) = (MGetDeviceAuthorizatonState, kd) :: rest ->
+  let a := answer p (handler r sv (FDeviceToken c off oid)) in
   r_cls a = K4xx /\ r_creds a = [] /\
   r_err a = if is_deadline kd then "slow_down" else "access_denied".
 Proof. exact device_mapping. Qed.
 Print Assumptions C10_device_mapping.
 
 Theorem C10_device_mapping_nonvacuous :
-  exists r c off oid p kd rest,
-    faults p (handler r (FDeviceToken c off oid)) = (MGetDeviceAuthorizatonState, kd) :: rest.
+  exists r sv c off oid p kd rest,
+    faults p (handler r sv (FDeviceToken c off oid)) = (MGetDeviceAuthorizatonState, kd) :: rest.
 Proof. exact device_mapping_nonvacuous. Qed.
 Print Assumptions C10_device_mapping_nonvacuous.
 
@@ -106,15 +107,15 @@ Print Assumptions C10_journal_prefix.
    answering ErrInvalidRefreshToken): with the k-th call failing the journal is exactly the first k calls of the fault-free
    run, and the failure is reached iff k is at most the number of fault-free calls. *)
 Theorem C10_journal_at_k :
-  forall r f k kd, goes_on f = false ->
-  journal (PAt (S k) kd) (handler r f) = firstn (S k) (journal PNone (handler r f))
-  /\ hit (PAt (S k) kd) (handler r f) = (S k <=? List.length (journal PNone (handler r f))).
+  forall r sv f k kd, goes_on sv f = false ->
+  journal (PAt (S k) kd) (handler r sv f) = firstn (S k) (journal PNone (handler r sv f))
+  /\ hit (PAt (S k) kd) (handler r sv f) = (S k <=? List.length (journal PNone (handler r sv f))).
 Proof. exact journal_at_handlers. Qed.
 Print Assumptions C10_journal_at_k.
 
 (* A handler has no state besides the storage: whether the same provider instance served the same
    request before (fault free) does not change the answer to the faulted request. The driver runs
    every case both ways against this one model. *)
-Theorem C10_no_hidden_state : forall r f p, model (Req r f true p) = model (Req r f false p).
+Theorem C10_no_hidden_state : forall r sv f p, model (Req r sv f true p) = model (Req r sv f false p).
 Proof. exact warm_irrelevant. Qed.
 Print Assumptions C10_no_hidden_state.
